@@ -2,6 +2,7 @@ import OV.Lemmas.C07Splice
 import OV.Lemmas.C07Eval
 import OV.Lemmas.C07Wf
 import OV.Lemmas.C07Term
+import OV.Lemmas.C07Match
 /-!
   C07 — applying a rewrite replaces only the match and leaves a valid, equivalent graph.
 
@@ -231,6 +232,185 @@ example {V} (sem : Sem V) (d : Nat) (outer : Env V) (args : List (Option V)) :
     (fun ρ => by
       show ORel ["n"] (evalNodes _ ρ [exNeg, exRelu]) (evalNodes _ ρ exRepl)
       exact ORel.refl _ _)
+
+/-! ## matcher ∘ splice: `Removable` and "the root is matched" are derived from `matchAt`
+
+`matchAt` is the model's rendering of `RewriteRule._matcher.match` for the pattern classes of the tie
+(`SimplePatternMatcher`: structural match, then `_valid_to_replace`, then the condition function).
+The theorems above take `SpliceOK` as given; here the part of it that is the *matcher's* duty is
+proved from a successful `matchAt`, so that what remains assumed about a match is only
+**OutputsAtRoot** (needed: C07-D3 is its failure) and facts about the host (sorted) and the
+replacement (fresh interior names). -/
+
+/-- **What a successful match of a node-removing rule guarantees** (every graph, rule, node, ghost
+set): the match is rooted at the node offered, that node is among the matched nodes, and every
+interior value of the match (an output of a matched node that is not a pattern output) is not a
+graph output, is not held by a discarded replacement, and is read by no unmatched node of the graph
+— neither directly nor from inside a nested body. -/
+theorem matchAt_removable (g : Graph) (r : Rule) (node : Node) (ghost : List Name) (m : Match)
+    (h : matchAt g r node ghost = some m) (hrm : r.removeNodes = true) :
+    m.root = node.id ∧ m.nodes.contains node.id = true ∧
+    ∀ x ∈ interiorOf g m.nodes m.outputs,
+      x ∉ g.outputs ∧ x ∉ ghost ∧ ∀ b ∈ g.nodes, m.nodes.contains b.id = false → x ∉ b.reads := by
+  obtain ⟨hroot, hv⟩ := matchAt_spec g r node ghost m h
+  obtain ⟨hvalid, hghost⟩ := hv hrm
+  refine ⟨hroot, matchAt_root_matched g r node ghost m h, ?_⟩
+  intro x hx
+  obtain ⟨ho, hr⟩ := validToReplace_spec g m.nodes m.outputs hvalid x hx
+  exact ⟨ho, hghost x hx, hr⟩
+
+/-- **`SpliceOK` from the matcher.**  Host node list `pre0 ++ root :: post`, `matchAt` succeeded at
+`root` for a node-removing rule.  Then `SpliceOK` holds with the hidden names = interior values of
+the match ++ `Hn` (interior names of the replacement), given only
+* `hpostU`, `hsorted`: the matched nodes precede the root and the host is sorted (host facts),
+* `hroot` (**OutputsAtRoot**): matched nodes before the root produce no pattern output,
+* `hfresh`: the replacement's interior names are new to the host.
+`rootMatched`, `unread` (**Removable**) and `outsVisible` are no longer assumed. -/
+theorem spliceOK_of_matchAt (g : Graph) (r : Rule) (ghost : List Name) (m : Match)
+    (pre0 post : List Node) (root : Node) (Hn : List Name)
+    (hm : matchAt g r root ghost = some m) (hrm : r.removeNodes = true)
+    (hg : g.nodes = pre0 ++ root :: post)
+    (hpostU : ∀ b ∈ post, m.nodes.contains b.id = false)
+    (hsorted : List.Pairwise (fun a b => follows a b = true) pre0)
+    (hroot : ∀ a ∈ pre0, m.nodes.contains a.id = true → ∀ x ∈ a.outputs, x ∉ m.outputs)
+    (hfresh : ∀ x ∈ Hn, x ∉ g.outputs ∧ ∀ b ∈ g.nodes, x ∉ b.reads) :
+    SpliceOK (fun n => m.nodes.contains n.id) pre0 root post (interiorOf g m.nodes m.outputs ++ Hn) g.outputs := by
+  obtain ⟨_, hrootM, hint⟩ := matchAt_removable g r root ghost m hm hrm
+  refine ⟨hrootM, hpostU, hsorted, ?_, ?_, ?_⟩
+  · intro a ha hP x hx
+    apply List.mem_append.mpr
+    left
+    exact mem_interiorOf.mpr ⟨⟨a, by rw [hg]; simp [ha], hP, hx⟩, hroot a ha hP x hx⟩
+  · intro b hb hP x hx hH
+    have hbg : b ∈ g.nodes := by
+      rw [hg]
+      rcases List.mem_append.mp hb with h1 | h1
+      · simp [h1]
+      · simp [h1]
+    rcases List.mem_append.mp hH with h1 | h1
+    · exact (hint x h1).2.2 b hbg hP hx
+    · exact (hfresh x h1).2 b hbg hx
+  · intro o ho hH
+    rcases List.mem_append.mp hH with h1 | h1
+    · exact (hint o h1).1 ho
+    · exact (hfresh o h1).1 ho
+
+/-- **End-to-end: matcher, then splice, is meaning-preserving.**  `applyAt_equiv` with the match
+produced by `matchAt` instead of a given `SpliceOK`. -/
+theorem applyAt_equiv_of_matchAt {V} (sem : Sem V) (d : Nat) (outer : Env V) (args : List (Option V))
+    (g : Graph) (r : Rule) (ghost : List Name) (m : Match) (pre0 post repl : List Node) (root : Node)
+    (Hn : List Name)
+    (hm : matchAt g r root ghost = some m) (hrm : r.removeNodes = true)
+    (hg : g.nodes = pre0 ++ root :: post)
+    (hpre : ∀ n ∈ pre0, n.id ≠ root.id) (hpost : ∀ n ∈ post, n.id ≠ root.id)
+    (hnew : ∀ n ∈ repl, m.nodes.contains n.id = false)
+    (hpostU : ∀ b ∈ post, m.nodes.contains b.id = false)
+    (hsorted : List.Pairwise (fun a b => follows a b = true) pre0)
+    (hroot : ∀ a ∈ pre0, m.nodes.contains a.id = true → ∀ x ∈ a.outputs, x ∉ m.outputs)
+    (hfresh : ∀ x ∈ Hn, x ∉ g.outputs ∧ ∀ b ∈ g.nodes, x ∉ b.reads)
+    (hrepl : ReplEquiv sem (evalGraph sem d) (interiorOf g m.nodes m.outputs ++ Hn)
+      (pre0.filter (fun n => m.nodes.contains n.id) ++ [root]) repl) :
+    evalGraph sem (d + 1) outer (g.setNodes (spliceNodes g.nodes m.root m.nodes repl true)) args =
+      evalGraph sem (d + 1) outer g args := by
+  rw [(matchAt_removable g r root ghost m hm hrm).1]
+  exact applyAt_equiv sem d outer args g pre0 post repl root m.nodes _ hg hpre hpost hnew
+    (spliceOK_of_matchAt g r ghost m pre0 post root Hn hm hrm hg hpostU hsorted hroot hfresh) hrepl
+
+/-- **OutputsAtRoot from the matcher** (patterns all of whose outputs are outputs of the pattern's
+output node — `has_single_output_node`): in a host `pre0 ++ root :: post` whose node ids are distinct
+from the root's and whose prefix up to the root is sorted (single assignment), a matched node before
+the root produces no output of the match.  For patterns with several output nodes the statement is
+false (C07-D3: `applyAt_wf_prefix_refuted`; the code sorts the graph afterwards instead). -/
+theorem outputsAtRoot_of_matchAt (g : Graph) (r : Rule) (ghost : List Name) (m : Match)
+    (pre0 post : List Node) (root : Node)
+    (hm : matchAt g r root ghost = some m)
+    (hsingle : ∀ first, (outputNodes r.pat).head? = some first → ∀ o ∈ r.pat.outputs, ∃ j, o = PRef.out first j)
+    (hg : g.nodes = pre0 ++ root :: post)
+    (hpre : ∀ n ∈ pre0, n.id ≠ root.id) (hpost : ∀ n ∈ post, n.id ≠ root.id)
+    (hsorted : List.Pairwise (fun a b => follows a b = true) (pre0 ++ [root])) :
+    (∀ x ∈ m.outputs, x ∈ root.outputs) ∧
+    ∀ a ∈ pre0, m.nodes.contains a.id = true → ∀ x ∈ a.outputs, x ∉ m.outputs := by
+  have huid : ∀ n ∈ g.nodes, n.id = root.id → n.outputs = root.outputs := by
+    intro n hn hid
+    rw [hg] at hn
+    rcases List.mem_append.mp hn with h1 | h1
+    · exact absurd hid (hpre n h1)
+    · rcases List.mem_cons.mp h1 with rfl | h2
+      · rfl
+      · exact absurd hid (hpost n h2)
+  have hout := matchAt_outputs_at_root g r root ghost m huid hsingle hm
+  refine ⟨hout, ?_⟩
+  intro a ha _ x hx hxo
+  have hfa : follows a root = true :=
+    (List.pairwise_append.mp hsorted).2.2 a ha root (List.mem_singleton.mpr rfl)
+  unfold follows at hfa
+  exact disjoint_spec _ _ (Bool.and_eq_true_iff.mp hfa).2 x (hout x hxo) hx
+
+/-- **End-to-end for single-output-node patterns: neither OutputsAtRoot nor Removable is assumed.**
+What is left are facts about the host (ids distinct from the root's, sorted up to the root, the
+matched nodes precede the root) and about the replacement (`hnew`, `hfresh`, `ReplEquiv`). -/
+theorem applyAt_equiv_of_matchAt_single {V} (sem : Sem V) (d : Nat) (outer : Env V) (args : List (Option V))
+    (g : Graph) (r : Rule) (ghost : List Name) (m : Match) (pre0 post repl : List Node) (root : Node)
+    (Hn : List Name)
+    (hm : matchAt g r root ghost = some m) (hrm : r.removeNodes = true)
+    (hsingle : ∀ first, (outputNodes r.pat).head? = some first → ∀ o ∈ r.pat.outputs, ∃ j, o = PRef.out first j)
+    (hg : g.nodes = pre0 ++ root :: post)
+    (hpre : ∀ n ∈ pre0, n.id ≠ root.id) (hpost : ∀ n ∈ post, n.id ≠ root.id)
+    (hnew : ∀ n ∈ repl, m.nodes.contains n.id = false)
+    (hpostU : ∀ b ∈ post, m.nodes.contains b.id = false)
+    (hsorted : List.Pairwise (fun a b => follows a b = true) (pre0 ++ [root]))
+    (hfresh : ∀ x ∈ Hn, x ∉ g.outputs ∧ ∀ b ∈ g.nodes, x ∉ b.reads)
+    (hrepl : ReplEquiv sem (evalGraph sem d) (interiorOf g m.nodes m.outputs ++ Hn)
+      (pre0.filter (fun n => m.nodes.contains n.id) ++ [root]) repl) :
+    evalGraph sem (d + 1) outer (g.setNodes (spliceNodes g.nodes m.root m.nodes repl true)) args =
+      evalGraph sem (d + 1) outer g args :=
+  applyAt_equiv_of_matchAt sem d outer args g r ghost m pre0 post repl root Hn hm hrm hg hpre hpost hnew hpostU
+    (List.pairwise_append.mp hsorted).1
+    (outputsAtRoot_of_matchAt g r ghost m pre0 post root hm hsingle hg hpre hpost hsorted).2 hfresh hrepl
+
+/-- `Relu(Neg(v0))` → re-emission -/
+def exRule : Rule :=
+  { name := "r", removeNodes := true, asFunction := false, guardTag := true,
+    pat := { nodes := [⟨"Neg", "", [.var 0], 1, []⟩, ⟨"Relu", "", [.out 0 0], 1, []⟩], root := 1, outputs := [.out 1 0] },
+    repl := { inits := [], uniqueInits := false,
+              nodes := [⟨"Neg", "", none, [.var 0], 1, []⟩, ⟨"Relu", "", none, [.out 0 0], 1, []⟩],
+              outputs := [.out 1 0] } }
+
+def exMatch : Match := { root := 2, nodes := [2, 1], bindings := [(0, some "x")], outputs := ["r"] }
+
+/-- non-vacuity: the matcher succeeds on `exHost` at `Relu` (matched `[2, 1]`, interior `n`), and
+the end-to-end theorem applies with the match it returns -/
+example : matchAt exHost exRule exRelu = some exMatch ∧
+    interiorOf exHost exMatch.nodes exMatch.outputs = ["n"] := by decide
+
+example {V} (sem : Sem V) (d : Nat) (outer : Env V) (args : List (Option V)) :
+    evalGraph sem (d + 1) outer (exHost.setNodes (spliceNodes exHost.nodes 2 [2, 1] exRepl true)) args =
+      evalGraph sem (d + 1) outer exHost args :=
+  applyAt_equiv_of_matchAt sem d outer args exHost exRule [] exMatch [exNeg, exOther] [exAbs] exRepl exRelu []
+    (by decide) rfl rfl (by decide) (by decide) (by decide) (by decide) (by decide) (by decide)
+    (by simp)
+    (fun ρ => by
+      show ORel _ (evalNodes _ ρ [exNeg, exRelu]) (evalNodes _ ρ exRepl)
+      exact ORel.refl _ _)
+
+example {V} (sem : Sem V) (d : Nat) (outer : Env V) (args : List (Option V)) :
+    evalGraph sem (d + 1) outer (exHost.setNodes (spliceNodes exHost.nodes 2 [2, 1] exRepl true)) args =
+      evalGraph sem (d + 1) outer exHost args :=
+  applyAt_equiv_of_matchAt_single sem d outer args exHost exRule [] exMatch [exNeg, exOther] [exAbs] exRepl exRelu []
+    (by decide) rfl
+    (by
+      intro first hf o ho
+      have h1 : (outputNodes exRule.pat).head? = some 1 := by decide
+      rw [h1] at hf
+      cases hf
+      have : o = PRef.out 1 0 := by simpa [exRule] using ho
+      exact ⟨0, this⟩)
+    rfl (by decide) (by decide) (by decide) (by decide) (by decide)
+    (by simp)
+    (fun ρ => by
+      show ORel _ (evalNodes _ ρ [exNeg, exRelu]) (evalNodes _ ρ exRepl)
+      exact ORel.refl _ _)
+
 
 /-! ## Repeated and overlapping applications in one pass
 
@@ -946,36 +1126,122 @@ theorem addIdentities_no_input (inputs : List Name) (outs : List NewOut) :
       · cases hx
       · exact ih _ o ho x hx
 
-/-- **The graph signature is untouched — full statement (no `NoPassthru`), after fixes e8a0767 and
-1dc987d**: whatever the replacement returns — new values, bound inputs, initializers, values that
-are graph inputs or graph outputs — the splice applied to what `tryRule` hands it (returned graph
-inputs and graph outputs routed through `Identity` by `addIdentities`) leaves the graph's input
-names and output names as they were. -/
+/-- **The graph signature is untouched — full statement (no `NoPassthru`), after fixes e8a0767,
+1dc987d and aef7e04**: whatever the replacement returns — new values, bound inputs, initializers,
+values that are graph inputs or graph outputs, values of an enclosing graph — the splice applied to
+what `tryRule` hands it (`addIdentities (routeNames isFunc g outs)`: returned graph inputs, graph
+outputs and, in graphs, foreign values routed through `Identity`) leaves the graph's input names and
+output names as they were. -/
 theorem applyAt_signature (d : Nat) (g : Graph) (m : Match) (new : List Node) (outs : List NewOut)
-    (base : Nat) (rm : Bool) :
-    (applyAt d g m (new ++ (addIdentities (g.inputs ++ g.outputs) base outs).1)
-        (addIdentities (g.inputs ++ g.outputs) base outs).2 rm).inputs = g.inputs ∧
-    (applyAt d g m (new ++ (addIdentities (g.inputs ++ g.outputs) base outs).1)
-        (addIdentities (g.inputs ++ g.outputs) base outs).2 rm).outputs = g.outputs := by
+    (base : Nat) (rm : Bool) (isFunc : Bool) :
+    (applyAt d g m (new ++ (addIdentities (routeNames isFunc g outs) base outs).1)
+        (addIdentities (routeNames isFunc g outs) base outs).2 rm).inputs = g.inputs ∧
+    (applyAt d g m (new ++ (addIdentities (routeNames isFunc g outs) base outs).1)
+        (addIdentities (routeNames isFunc g outs) base outs).2 rm).outputs = g.outputs := by
   unfold applyAt
   have hpre : ∀ ns, ((retireOld g m rm).setNodes ns).inputs = g.inputs := by
     intro ns; cases rm <;> cases g <;> rfl
   have hpre' : ∀ ns, ((retireOld g m rm).setNodes ns).outputs = g.outputs := by
     intro ns; cases rm <;> cases g <;> rfl
-  have hno := fun p (hp : p ∈ (dedupOuts [] m.outputs).zip (addIdentities (g.inputs ++ g.outputs) base outs).2) x
+  have hno := fun p (hp : p ∈ (dedupOuts [] m.outputs).zip (addIdentities (routeNames isFunc g outs) base outs).2) x
       (hx : p.2 = NewOut.existing x) =>
-    addIdentities_no_input (g.inputs ++ g.outputs) outs base p.2 (List.of_mem_zip hp).2 x hx
+    addIdentities_no_input (routeNames isFunc g outs) outs base p.2 (List.of_mem_zip hp).2 x hx
   constructor
   · rw [renamePassthru_inputs]
     · exact hpre _
     · intro p hp x hx
       rw [hpre]
-      exact fun hm => hno p hp x hx (List.mem_append.mpr (Or.inl hm))
+      exact fun hm => hno p hp x hx
+        (List.mem_append.mpr (Or.inl (List.mem_append.mpr (Or.inl hm))))
   · rw [renamePassthru_outputs]
     · exact hpre' _
     · intro p hp x hx
       rw [hpre']
-      exact fun hm => hno p hp x hx (List.mem_append.mpr (Or.inr hm))
+      exact fun hm => hno p hp x hx
+        (List.mem_append.mpr (Or.inl (List.mem_append.mpr (Or.inr hm))))
+
+/-- `addIdentities` only keeps or replaces: an existing value it returns was returned before -/
+theorem addIdentities_existing_sub (R : List Name) (outs : List NewOut) :
+    ∀ base, ∀ x, NewOut.existing x ∈ (addIdentities R base outs).2 → NewOut.existing x ∈ outs := by
+  induction outs with
+  | nil => intro base x h; simp [addIdentities] at h
+  | cons a rest ih =>
+    intro base x h
+    cases a with
+    | existing y =>
+      cases hy : R.contains y with
+      | true =>
+        simp only [addIdentities, hy, if_true] at h
+        rcases List.mem_cons.mp h with h | h
+        · cases h
+        · exact List.mem_cons_of_mem _ (ih _ x h)
+      | false =>
+        simp only [addIdentities, hy, Bool.false_eq_true, if_false] at h
+        rcases List.mem_cons.mp h with h | h
+        · rw [h]; exact List.mem_cons_self ..
+        · exact List.mem_cons_of_mem _ (ih _ x h)
+    | fresh t =>
+      simp only [addIdentities, List.mem_cons] at h
+      rcases h with h | h
+      · cases h
+      · exact List.mem_cons_of_mem _ (ih _ x h)
+    | none =>
+      simp only [addIdentities, List.mem_cons] at h
+      rcases h with h | h
+      · cases h
+      · exact List.mem_cons_of_mem _ (ih _ x h)
+
+/-- **Fix aef7e04 (C07-D11), every graph, every replacement**: in a graph or subgraph (not a function),
+after the Identity routing every *existing* value the replacement still returns is defined by the graph
+being rewritten itself (an input, an initializer or a node output of it) and is neither an input nor an
+output of it — no value of an enclosing graph is handed to `replace_nodes_and_values`, so none can take
+over the name or the output slot of a value of the body. -/
+theorem addIdentities_no_foreign (g : Graph) (outs : List NewOut) (base : Nat) (x : Name)
+    (h : NewOut.existing x ∈ (addIdentities (routeNames false g outs) base outs).2) :
+    x ∈ g.defined ∧ x ∉ g.inputs ∧ x ∉ g.outputs := by
+  have hno := addIdentities_no_input (routeNames false g outs) outs base _ h x rfl
+  have hin := addIdentities_existing_sub (routeNames false g outs) outs base x h
+  unfold routeNames at hno
+  simp only [Bool.false_eq_true, if_false, List.mem_append, not_or] at hno
+  obtain ⟨⟨hi, ho⟩, hf⟩ := hno
+  refine ⟨?_, hi, ho⟩
+  by_cases hd : x ∈ g.defined
+  · exact hd
+  · exfalso
+    apply hf
+    unfold foreignOuts
+    exact List.mem_filterMap.mpr ⟨.existing x, hin, by simp [hd]⟩
+
+/-- the C07-D11 witness: `a = Abs(x); z = If(c){ n = Neg(a); t = Neg(n) → t }` with `Neg(Neg(v)) → v` -/
+def d11Body : Graph :=
+  .mk [] [] [.mk 3 "Neg" "" "" [some "a"] ["n"] [] [] [] [], .mk 4 "Neg" "" "" [some "n"] ["t"] [] [] [] []] ["t"]
+def d11Host : Graph :=
+  .mk ["x", "c"] []
+    [.mk 1 "Abs" "" "" [some "x"] ["a"] [] [] [] [],
+     .mk 2 "If" "" "" [some "c"] ["z"] [] [] ["a"] [("then_branch", d11Body)]] ["z"]
+def d11Rule : Rule :=
+  { name := "", removeNodes := true, asFunction := false, guardTag := false,
+    pat := { nodes := [⟨"Neg", "", [.var 0], 1, []⟩, ⟨"Neg", "", [.out 0 0], 1, []⟩], root := 1, outputs := [.out 1 0] },
+    repl := { inits := [], uniqueInits := false, nodes := [], outputs := [.var 0] } }
+
+/-- regression of C07-D11 (fixed aef7e04): the pass applies once; the body now holds one `Identity`
+reading the outer `a` and still produces its output `t`; the outer graph is as it was and well-formed -/
+theorem d11_fixed :
+    ((applyToModel [d11Rule] 100 { opsets := [("", 18)], graph := d11Host, funcs := [] }).toOption.map
+      fun r => (r.1, r.2.graph.nodes.map (·.op), r.2.graph.nodes.flatMap (·.caps), wfGraph [] r.2.graph,
+        r.2.graph.nodes.flatMap fun n => n.subs.flatMap fun s =>
+          s.2.nodes.map (·.op) ++ s.2.nodes.flatMap (·.inputNames) ++ s.2.outputs ++
+            [toString (wfGraph ["x", "c", "a"] s.2)])) =
+    some (1, ["Abs", "If"], ["a"], true, ["Identity", "a", "t", "true"]) := by
+  decide +kernel
+
+/-- the code between 1dc987d and aef7e04 routed only graph inputs and graph outputs: the returned outer
+value `a` reached the splice and took the name of the body's output -/
+theorem d11_prefix_refuted :
+    ¬ (∀ (g : Graph) (outs : List NewOut) (base : Nat) (x : Name),
+        NewOut.existing x ∈ (addIdentities (g.inputs ++ g.outputs) base outs).2 → x ∈ g.defined) := by
+  intro h
+  exact absurd (h d11Body [.existing "a"] 5 "a" (by decide)) (by decide)
 
 /-! ### C07-D4 (fixed e8a0767), C07-D10 (fixed 1dc987d) — the code before the fixes -/
 
